@@ -50,9 +50,13 @@ var c11ZoneDateCombos = []struct {
 func c11Harness(maxRows int) Harness {
 	return func(c *Ctx) {
 		m := genStaticFeedN(c, false, baseCounts, nil, nil)
-		combo := c11ZoneDateCombos[c.Free("first_agency_zone_and_date_set", len(c11ZoneDateCombos))]
+		comboIdx := c.Free("first_agency_zone_and_date_set", len(c11ZoneDateCombos))
+		combo := c11ZoneDateCombos[comboIdx]
 		zone := combo.zone
-		dates := append(append([]string{}, c11RangeSets[combo.set]...), "2024-01-10", "")
+		// the unparseable date: not of the form YYYYMMDD, or (every other combination) of that form but naming a
+		// day its month does not have
+		unparseable := []string{"2024-01-10", "20230229", "20240431"}[comboIdx%3]
+		dates := append(append([]string{}, c11RangeSets[combo.set]...), unparseable, "")
 		m.t("agency.txt").set(0, "agency_timezone", zone)
 		cal := m.t("calendar.txt")
 		cd := m.t("calendar_dates.txt")
@@ -208,7 +212,7 @@ func init() {
 	register(&Check{
 		ID:    "C11",
 		Level: "model_checking",
-		Rule: "full product: calendar.txt {s1, empty, absent, s1+s2, s1 twice, s1 as a one-day service}; service ids beginning with #; x 0..2 (thorough 0..3) exception rows over 3 services x 7 dates (before/start/inside/end/after the s1 range, unparseable, blank) x 3 exception types x 15 (zone of the first agency, date set) combinations: New_York, London, unknown, Sydney, Lord_Howe, Japan, EST5EDT (names without a slash) with dates around the leap day 2024-02-29; New_York, Sydney, Lord_Howe with the southern DST switch days; New_York, Sydney, Japan with dates in the years 1, 1677, 2262 and 9999; America/Santiago and America/Havana (daylight saving time starts at local midnight) with their switch days x map iteration starts 0, 1, 2 at every library range; the Japan / January combination also with an unknown first column whose cells are blank in every file; " +
+		Rule: "full product: calendar.txt {s1, empty, absent, s1+s2, s1 twice, s1 as a one-day service}; service ids beginning with #; x 0..2 (thorough 0..3) exception rows over 3 services x 7 dates (before/start/inside/end/after the s1 range, unparseable - 2024-01-10, 20230229 or 20240431 -, blank) x 3 exception types x 15 (zone of the first agency, date set) combinations: New_York, London, unknown, Sydney, Lord_Howe, Japan, EST5EDT (names without a slash) with dates around the leap day 2024-02-29; New_York, Sydney, Lord_Howe with the southern DST switch days; New_York, Sydney, Japan with dates in the years 1, 1677, 2262 and 9999; America/Santiago and America/Havana (daylight saving time starts at local midnight) with their switch days x map iteration starts 0, 1, 2 at every library range; the Japan / January combination also with an unknown first column whose cells are blank in every file; " +
 			"non-trivial = distinct archives with at least one exception row; oracle = reference merge (all admissible readings) + direct invariants (unique ids, start <= exception <= end)",
 		Assumptions: []string{"two calendar rows with one id: either row may win", "an exception row with an unsupported type creates nothing, adds no date, and may or may not widen an existing range"},
 		Scenarios: func(tier string) []*Scenario {
